@@ -1,9 +1,71 @@
 (* C03 - libavoid: every route joins its two endpoints and stays out of obstacles.
-   Only statements closed by `exact`; proofs live in Avoid/SegPoly.v, Avoid/Blocking.v, Avoid/RefRouter.v. *)
-From Adapt Require Import Num.Qaux Geom.GeomSpec Avoid.SegPolyModel Avoid.SegPoly.
+   Only statements closed by `exact`; proofs live in Avoid/SegPoly.v, Avoid/Blocking.v (about the cpp2v-generated
+   predicates of Gen/Geometry.v) and Avoid/RefRouter.v. *)
+From Adapt Require Import Num.Qaux Geom.GeomSpec Gen.Geometry Avoid.SegPolyModel Avoid.SegPoly
+     Avoid.CertDijkstraModel Avoid.RefRouterModel Avoid.RefRouter Avoid.Blocking.
 Local Open Scope Q_scope.
+
+(* the exact segment / convex polygon decider *)
+Theorem C03_through_interior_exact P u v :
+  through_interior P u v = true <-> exists t, 0 < t /\ t < 1 /\ strictly_inside_all_edges P (lerp u v t).
+Proof. exact (through_interior_spec P u v). Qed.
+Print Assumptions C03_through_interior_exact.
 
 (* the verified route checker decides the declarative route validity of the property *)
 Theorem C03_route_ok_sound shapes s d r : route_ok shapes s d r = true <-> route_valid shapes s d r.
 Proof. exact (route_ok_spec shapes s d r). Qed.
 Print Assumptions C03_route_ok_sound.
+
+Theorem C03_visible_sound obst V u v :
+  vis_edge obst V u v = true -> forall P, In P obst -> segment_avoids P (vpt V u) (vpt V v).
+Proof. exact (visible_sound obst V u v). Qed.
+Print Assumptions C03_visible_sound.
+
+Theorem C03_route_is_graph_path shapes s d pts c :
+  route_plain shapes s d = Route pts c ->
+  (2 <= length pts)%nat /\ hd s pts = s /\ last pts d = d /\
+  forall a b, In (a, b) (consecutive pts) -> forall P, In P (obstacles shapes s d) -> segment_avoids P a b.
+Proof. exact (route_is_graph_path shapes s d pts c). Qed.
+Print Assumptions C03_route_is_graph_path.
+
+Theorem C03_model_route_avoids shapes s d pts c :
+  route_plain shapes s d = Route pts c -> route_ok shapes s d pts = true.
+Proof. exact (C03_model_route_avoids shapes s d pts c). Qed.
+Print Assumptions C03_model_route_avoids.
+
+Theorem C03_model_route_avoids_taut pen shapes s d pts c :
+  route_taut pen shapes s d = Route pts c ->
+  forall a b, In (a, b) (consecutive pts) -> forall P, In P (obstacles shapes s d) -> segment_avoids P a b.
+Proof. exact (route_taut_is_graph_path pen shapes s d pts c). Qed.
+Print Assumptions C03_model_route_avoids_taut.
+
+(* the blocking test of firstBlocker / newBlockingShape over the generated segmentShapeIntersect *)
+Theorem C03_blocked_char e1 e2 es seen :
+  blocked_edges e1 e2 es seen =
+  existsb (crosses e1 e2) es || (2 <=? touch_count e1 e2 es + (if seen then 1 else 0))%nat.
+Proof. exact (blocked_char e1 e2 es seen). Qed.
+Print Assumptions C03_blocked_char.
+
+Theorem C03_blocked_order_irrelevant e1 e2 P : blocked_by_new_shape e1 e2 P = blocked_by_shape e1 e2 P.
+Proof. exact (blocked_order_irrelevant e1 e2 P). Qed.
+Print Assumptions C03_blocked_order_irrelevant.
+
+Theorem C03_blocked_if_properly_crossed e1 e2 P :
+  (exists e, In e (poly_edges P) /\ properly_cross e1 e2 (fst e) (snd e)) -> blocked_by_shape e1 e2 P = true.
+Proof. exact (blocked_if_properly_crossed e1 e2 P). Qed.
+Print Assumptions C03_blocked_if_properly_crossed.
+
+Theorem C03_blocked_complete_partial e1 e2 P :
+  through_interior P e1 e2 = true -> inside_strict P e1 = false -> inside_strict P e2 = false ->
+  degenerate_chord P e1 e2 = false ->
+  blocked_by_shape e1 e2 P = true /\ blocked_by_new_shape e1 e2 P = true.
+Proof. exact (blocked_complete_partial e1 e2 P). Qed.
+Print Assumptions C03_blocked_complete_partial.
+
+(* the faithful model violates "a segment through the interior is blocked": the degenerate chord (DESIGN 6 F-b) *)
+Theorem C03_blocked_refuted :
+  exists P e1 e2, convex_ccw P = true /\ inside_closed P e1 = false /\ inside_closed P e2 = false /\
+                  passes_through_interior P e1 e2 /\
+                  blocked_by_shape e1 e2 P = false /\ blocked_by_new_shape e1 e2 P = false.
+Proof. exact blocked_refuted. Qed.
+Print Assumptions C03_blocked_refuted.
